@@ -632,7 +632,7 @@ theorem dispatching_book (env : Env) (d : Desc) (n : Node) (it : Item) (b : Bund
       · have := forward_book env { d with bndl := some b1 } b1 (dispatchingAllowed env d n).2 ita ga
           (by rw [hcfg]; exact hrep) E ⟨hE.notDst, hEa⟩
         refine ⟨fun p b' ok h => ?_, this.2⟩
-        rcases forward_outs env { d with bndl := some b1 } b1 _ rfl _ h with ⟨q, b2, ok2, hq, _, _⟩
+        rcases forward_outs env { d with bndl := some b1 } b1 _ _ h with ⟨q, b2, ok2, hq, _, _⟩
         -- the outputs of `forward` name the bundle `b1`
         have hb' : b' = b1 := by
           unfold forward at h
@@ -926,7 +926,7 @@ theorem submit_prev (env : Env) (c : Cfg) (b : Bundle) (n : Node) (w : WF n) (hp
 
 /-- The three `Sync`s at the beginning of the reception of a bundle the node does not know (no item, or
 an item without constraints): afterwards the store holds exactly the received copy. -/
-theorem receive_m (b : Bundle) (r : Option Eid) (n : Node) (D : Desc) (hD : D = newDesc n b.key)
+theorem receive_m (b : Bundle) (r : Option Eid) (n : Node) (D : Desc)
     (he : D.cons.isEmpty = true) :
     ∃ itm, (sync { key := b.key, receiver := r, cons := { D.cons with dp := true }, bndl := some b }
       (sync { key := b.key, receiver := r, cons := D.cons, bndl := some b }
@@ -974,7 +974,7 @@ theorem receive_prev (env : Env) (c : Cfg) (b : Bundle) (r : Option Eid) (n : No
   by_cases hemp : Dc.isEmpty = true
   · -- treated as a new bundle
     simp only [hemp, Bool.not_true, Bool.false_eq_true, if_false] at hother ⊢
-    rcases receive_m b r n ⟨b.key, Dr, Dc, Db⟩ hD.symm hemp with ⟨itm, hgm, hbm⟩
+    rcases receive_m b r n ⟨b.key, Dr, Dc, Db⟩ hemp with ⟨itm, hgm, hbm⟩
     simp only at hgm
     generalize hm : sync { key := b.key, receiver := r, cons := { Dc with dp := true }, bndl := some b }
       (sync { key := b.key, receiver := r, cons := Dc, bndl := some b }
